@@ -517,6 +517,33 @@ func main() {
 		}
 	}
 	fixedBoundary(bv, thorough)
+	// 2c. AES settings with EVERY key length 0..40 (48, 56, 64) and IV lengths around 16, from the constructor, in
+	// several placements (validate checks 16/24/32 and 16 itself, build leaves it to crypto/aes and NewBlock)
+	{
+		type kv struct{ k, iv int }
+		var sizes []kv
+		for k := 0; k <= 40; k++ {
+			sizes = append(sizes, kv{k, 16})
+		}
+		for _, k := range []int{48, 56, 64} {
+			sizes = append(sizes, kv{k, 16})
+		}
+		for _, k := range []int{8, 16, 24, 32} {
+			for _, iv := range []int{0, 1, 8, 15, 17, 24, 32} {
+				sizes = append(sizes, kv{k, iv})
+			}
+		}
+		for _, z := range sizes {
+			a := cfg.Pack(cfg.WrapAES(pat(z.k, 3, 5), pat(z.iv, 9, 1)))
+			if z.iv == 0 && z.k > 0 {
+				copy(a[3+z.k:], pat(16, 9, 1)) // the generated IV: make the input deterministic
+			}
+			h, t := cfg.Pack(cfg.Host("h:1")), []byte{0xC0}
+			for _, m := range [][]byte{a, cat(a, h, t), cat(h, a, t), cat(h, t, a), cat(h, t, []byte{0xFA, 0xA2, 7}, a, []byte{0xC2}), cat(h, a, []byte{0xFA}, h, t, []byte{0xFA}, a)} {
+				doX(m, "", "aes-sizes", fmt.Sprintf("aes key %d iv %d", z.k, z.iv))
+			}
+		}
+	}
 	// 3. exhaustive short strings
 	alpha := append(append([]byte{}, tags...), 0, 1, 2, 5, 255)
 	for _, a := range alpha {
